@@ -132,4 +132,27 @@ func init() {
 		variant{Name: "benign-solexa-offset-removed-in-a-temporary", File: letters, Find: "\t\treturn (Qsolexa(q) - 64).Qphred()\n",
 			Replace: "\t\tqs := Qsolexa(q) - 64\n\t\treturn qs.Qphred()\n"},
 	)
+
+	// round 21
+	const lowerLoop = "\tfor i, l := range a.letters[:len(letters)] {\n\t\ta.valid[l] = true\n\t\ta.index[l] = i\n\t}\n"
+	const upperLoop = "\tfor i, l := range a.letters[len(letters):] {\n\t\ta.valid[l] = true\n\t\ta.index[l] = a.index[a.letters[i]]\n\t}\n"
+	add("C17",
+		variant{Name: "lower-case-half-never-walked", File: alpha, Find: lowerLoop, Replace: "",
+			Rule: "casefold", Key: "alphabet.newAlphabet/both-cases-marked"},
+		variant{Name: "benign-both-halves-in-one-loop", File: alpha, Find: lowerLoop + upperLoop,
+			Replace: "\tfor i, l := range a.letters {\n\t\ta.valid[l] = true\n\t\ta.index[l] = i % len(letters)\n\t}\n"},
+		variant{Name: "benign-halves-walked-as-separate-strings", File: alpha, Find: lowerLoop + upperLoop,
+			Replace: "\tfor i, l := range strings.ToLower(letters) {\n\t\ta.valid[l] = true\n\t\ta.index[l] = i\n\t}\n\tfor i, l := range strings.ToUpper(letters) {\n\t\ta.valid[l] = true\n\t\ta.index[l] = i\n\t}\n"},
+	)
+	const trimLoop = "\tfor i := q.Start(); i < q.End(); i++ {\n\t\tsum += limit - q.EAt(i)\n\t\tif sum < 0 {\n\t\t\tsum, begin = 0, i+1\n\t\t}\n\t\tif sum >= max {\n\t\t\tmax, start, end = sum, begin, i+1\n\t\t}\n\t}\n"
+	add("C06",
+		variant{Name: "trim-window-start-kept-as-a-subscript", File: utils, Find: trimLoop,
+			Replace: "\tfor i, off, n := 0, q.Start(), q.Len(); i < n; i++ {\n\t\tsum += limit - q.EAt(off+i)\n\t\tif sum < 0 {\n\t\t\tsum, begin = 0, i+1\n\t\t}\n\t\tif sum >= max {\n\t\t\tmax, start, end = sum, begin, off+i+1\n\t\t}\n\t}\n",
+			Rule:    "trimcoords", Key: "sequtils.Trim/return#1/start-is-a-position"},
+		variant{Name: "trim-probes-with-a-subscript", File: utils, Find: trimLoop,
+			Replace: "\tfor i, off, n := 0, q.Start(), q.Len(); i < n; i++ {\n\t\tsum += limit - q.EAt(i)\n\t\tif sum < 0 {\n\t\t\tsum, begin = 0, off+i+1\n\t\t}\n\t\tif sum >= max {\n\t\t\tmax, start, end = sum, begin, off+i+1\n\t\t}\n\t}\n",
+			Rule:    "trimcoords", Key: "sequtils.Trim/EAt#1/probe-is-a-position"},
+		variant{Name: "benign-trim-loop-counts-from-zero", File: utils, Find: trimLoop,
+			Replace: "\tfor i, off, n := 0, q.Start(), q.Len(); i < n; i++ {\n\t\tsum += limit - q.EAt(off+i)\n\t\tif sum < 0 {\n\t\t\tsum, begin = 0, off+i+1\n\t\t}\n\t\tif sum >= max {\n\t\t\tmax, start, end = sum, begin, off+i+1\n\t\t}\n\t}\n"},
+	)
 }
